@@ -27,7 +27,7 @@ fn main() {
         }
         i += 2;
     }
-    common::quiet_panics();
+    if std::env::var("VERIF_SHOW_PANICS").is_err() { common::quiet_panics(); }
     let r = match dispatch(prop.as_str(), seed, &tier, &out, &extra) {
         Some(r) => r,
         None => {
